@@ -90,7 +90,7 @@ func c15CancelDuringLimiterWait(rep *vk.Report, idx int) {
 	rep.Eval()
 	cs := map[string]any{"inside": inner}
 	if ran || took >= time.Second {
-		if took >= time.Second && !ran {
+		if took >= time.Second && !ran && vk.StalledBetween(t0, t0.Add(took)) < 250*time.Millisecond {
 			rep.Violate(idx, "C15/waited-out-the-limiter", fmt.Sprintf("RateLimiter(%s(fn)) cancelled through its ExecutionResult while waiting for a permit 1s away completed only after %v", inner, took), cs)
 		}
 		return
